@@ -313,7 +313,8 @@ def check(an: Analysis) -> None:
         a_list = abs_builtin("list")
         rets_all = [n for n in gi.nodes if n.kind == "return"]
         yielded_names = {x.id for x in ast.walk(init_.node) if isinstance(x, ast.Name) and di_.origins(x) and "expr" not in di_.origins(x) and _is_entered_value(di_, x, entered)}
-        for label, value in (("None", None), ("a single State", a_state), ("an iterable of states", a_iter), ("a list of states", a_list)):
+        a_falsy_state = Abs("State", "object", truthy=False, tag="state whose truth value is False")  # a State defining __len__ / __bool__
+        for label, value in (("None", None), ("a single State", a_state), ("a single State whose truth value is False", a_falsy_state), ("an iterable of states", a_iter), ("a list of states", a_list)):
             sc = Scenario(gi, di_, env_for(value))
             live = [r for r in rets_all if r.id in sc.reach]
             ob.inst(init_, None, f"yielded {label}: {len(live)} reachable return(s)")
@@ -324,7 +325,7 @@ def check(an: Analysis) -> None:
                 if label == "None":
                     ok = isinstance(v, (ast.Tuple, ast.List)) and not v.elts
                     msg = "a disposable yielding None must contribute no state"
-                elif label == "a single State":
+                elif label.startswith("a single State"):
                     ok = isinstance(v, (ast.Tuple, ast.List)) and len(v.elts) == 1 and isinstance(v.elts[0], ast.Name) and v.elts[0].id in yielded_names
                     msg = "a single yielded State is dropped or mis-wrapped"
                 else:
